@@ -108,6 +108,9 @@ impl TransportError {
 #[verifier::external_body]
 struct Transport { _p: () }
 
+// permission to remove a path: never granted in this unit (see the destructive primitives below)
+uninterp spec fn removal_granted(path: Seq<char>) -> bool;
+
 impl Transport {
     uninterp spec fn read_outcome(&self, path: Seq<char>) -> std::result::Result<Seq<u8>, TransportError>;
 
@@ -123,6 +126,21 @@ impl Transport {
             mode is CreateNew, //# C07.backup_writes_are_create_new
         ensures
             r is Ok ==> self.file_written(relpath@, content@),
+    { unimplemented!() }
+
+    // DESTRUCTIVE primitives (DESIGN 4.4).  Nothing in this unit's functions may remove anything: `removal_granted` is
+    // never established, so a call added by an edit fails this labelled precondition (C07: backup never alters or
+    // removes an existing archive file) instead of leaving the unit unposable.
+    #[verifier::external_body]
+    async fn remove_file(&self, relpath: &str) -> (r: std::result::Result<(), TransportError>)
+        requires
+            removal_granted(relpath@), //# C07.backup_never_removes_archive_files
+    { unimplemented!() }
+
+    #[verifier::external_body]
+    async fn remove_dir_all(&self, relpath: &str) -> (r: std::result::Result<(), TransportError>)
+        requires
+            removal_granted(relpath@), //# C07.backup_never_removes_archive_files
     { unimplemented!() }
 
     // Read a whole file.
